@@ -5,7 +5,7 @@ import ast
 from .core import ( rule, Result, AnalysisError, dotted, call_name, is_call_to, names_in, attrs_in, walk_no_nested,
                     norm_text, dotted_in, stmt_of, pmatch, pfind, txt )
 from .core import Matcher
-from .fold import try_fold
+from .fold import try_fold, run_block, NoFold
 from .cfg import CFG, INF
 
 AUTOMATA = 'automata.py'
@@ -59,7 +59,22 @@ def r_sent( ctx ):
             else:
                 res.bad( src, fn, '%s: an exception path increments _sent' % qn, 'a symbol that was not delivered must not be counted' )
         # the item comes from the push-back stack first, then the iterator
-        if pfind( fn, 'self._back.pop() if self._back else next( self._iter )' ):
+        # decided by value: the fragment that fetches the symbol ( the body of the try ), on an empty and on a non-empty push-back stack, with
+        # marking stand-ins for the stack's pop and for next(): whatever the spelling, it delivers pop() / pop( -1 ) when something was pushed
+        # back and next( self._iter ) otherwise
+        tries = [ t for t in fn.body if isinstance( t, ast.Try ) ]
+        frag = tries[0].body if tries else fn.body
+        got = {}
+        for back in ( [], [ 'pushed' ] ):
+            env = { 'self._back': list( back ), 'self._iter': 'ITER', 'self._back.pop': lambda *a: ( 'pop', ) + a, 'next': lambda *a: ( 'next', ) + a }
+            before = set( env )
+            try:
+                out = run_block( frag, env )
+            except NoFold as exc:
+                raise AnalysisError( '%s: the fragment fetching the symbol is not a decision fragment: %s' % ( qn, exc ))
+            new = [ k for k in env if k not in before ]
+            got[bool( back )] = out.value if out.kind == 'return' else env[new[0]] if len( new ) == 1 else None
+        if got[True] in (( 'pop', ), ( 'pop', -1 )) and got[False] == ( 'next', 'ITER' ):
             res.ok( src, fn, '%s: pushed-back symbols are delivered before new ones' % qn )
         else:
             res.bad( src, fn, qn, 'pushed-back symbols must be re-delivered (LIFO) before reading the iterator' )
